@@ -7,6 +7,7 @@ For a cat.Arrow: the boxes compose from dom to cod.
 The scanning constructors establish RI (R01.2); every construction that bypasses the scan (`_scan=False`, `layers=...`)
 is an obligation that must discharge by a named pattern (R01.1), under the guards of R01.3."""
 import ast
+from .. import shape
 from ..lin import Lin, Facts
 from ..words import Seq, Seg, Item, Atom, MapSeg, Unlocatable
 from ..beval import (Evaluator, Obj, Box, Layer, Arrow, Diagram, Closure, Unsupported, Undecided, assume, layer_dom, layer_cod)
@@ -633,6 +634,37 @@ HANDLERS = {
 
 
 # ----------------------------------------------------------------------------------------------------------------
+THEN_FUNCTIONS = (CAT + ".Arrow.then", MON + ".Diagram.then", "discopy.tensor.Tensor.then", "discopy.quantum.cqmap.CQMap.then", "discopy.cartesian.Function.then")
+
+
+def check_then_guards(ctx, rule="R01.3", only=None):
+    """every way out of a `then` compares the types: it delegates to another composition (a call of `.then(...)` or `>>` on the components, themselves
+    guarded), or it is dominated by `cod != dom -> AxiomError`; the only unguarded return is `self` for the empty composition (`not others`)"""
+    m = ctx.model
+    for q in THEN_FUNCTIONS:
+        if only is not None and q not in only:
+            continue
+        fn = m.func(q)
+        ctx.analysed(q)
+        self_ = fn.args.args[0].arg
+        var = fn.args.vararg.arg if fn.args.vararg else None
+        g = CFG(fn)
+        bad = []
+        for r in [x for x in own_nodes(fn) if isinstance(x, ast.Return)]:
+            v = r.value
+            delegates = v is not None and any((isinstance(c, ast.Call) and isinstance(c.func, ast.Attribute) and c.func.attr == "then") or
+                                              (isinstance(c, ast.BinOp) and isinstance(c.op, (ast.RShift, ast.LShift))) for c in ast.walk(v))
+            guards = g.raising_guards_before(r)
+            guarded = any(lab == "T" and "AxiomError" in how and isinstance(st.test, ast.Compare) and len(st.test.ops) == 1 and isinstance(st.test.ops[0], ast.NotEq)
+                          and {"cod", "dom"} <= {x.attr for x in ast.walk(st.test) if isinstance(x, ast.Attribute)} for st, lab, how in guards)
+            empty = v is not None and ast.unparse(v) == self_ and var is not None and any(isinstance(st, ast.If) and ast.unparse(st.test) == "not " + var and any(x is r for x in ast.walk(st))
+                                                                                          for st in ast.walk(fn))
+            if not (delegates or guarded or empty):
+                bad.append("line %d: `return %s`" % (r.lineno, ast.unparse(v)[:60] if v is not None else ""))
+        ctx.ob(rule, q + ":every-exit-guarded", not bad, found=bad or "every return delegates to a guarded composition or follows the cod != dom guard",
+               required="no path out of a composition skips the comparison of the codomain with the domain (fast paths included)", mod=q.rsplit(".", 2)[0], node=fn, sig="then-exits")
+
+
 def check_scanning_ctors(ctx):
     m = ctx.model
     # --- cat.Arrow.__init__
@@ -748,8 +780,16 @@ def check_upgrades(ctx):
                          "%s(len(%s))" % (k.name, old), "%s(len(monoidal.PRO.upgrade(%s)))" % (k.name, old),
                          "%s(*[x.name for x in %s.objects])" % (k.name, old))
             if s.endswith("(len(%s))" % old):
-                # length-only upgrade: sound only behind the check that every object is the unit wire
-                fine = fine and any(isinstance(x, ast.Raise) for x in ast.walk(fn))
+                # length-only upgrade: sound only behind the check that every object is the unit wire (named 1)
+                unit_check = False
+                for lp in [x for x in ast.walk(fn) if isinstance(x, ast.For) and ast.unparse(x.iter) == old and isinstance(x.target, ast.Name)]:
+                    for st in lp.body:
+                        if isinstance(st, ast.If) and st.body and isinstance(st.body[-1], ast.Raise) and \
+                                shape.key(shape.rename(st.test, {lp.target.id: "obj"})) == shape.key(shape.parse("obj.name != 1")):
+                            unit_check = True
+                if not unit_check:
+                    found.append("no `for obj in %s: if obj.name != 1: raise` before the length-only rebuild" % old)
+                fine = fine and unit_check
             ok = ok and fine
         ctx.ob("R01.4", k.q + ".upgrade", ok and bool(rets), found=found, required="returns the same objects re-wrapped (word-preserving)",
                mod=k.mod, node=fn, sig="upgrade-word-preserving")
@@ -790,6 +830,7 @@ def check(ctx):
         else:
             ctx.ob("R01.1", cname, True, found=pattern, required="RI1-RI4", mod=mod, node=c)
     check_scanning_ctors(ctx)
+    check_then_guards(ctx)
     nup = check_upgrades(ctx)
     # boxes are one-box diagrams: the dagger of every concrete box class is typed cod -> dom (abstract construction, shared with C02)
     from .c02 import check_daggers
